@@ -73,6 +73,8 @@ macro_rules! binops { ($mm:ident, $and:ident, $or:ident, $xor:ident, $add:ident,
 binops!(m32, and__f82_f82, or__f82_f82, xor__f82_f82, add__f82_f82, sub__f82_f82, mul__f82_f82, cmp__f82_f82, F82, F82);
 binops!(m32, and__f82_f162, or__f82_f162, xor__f82_f162, add__f82_f162, sub__f82_f162, mul__f82_f162, cmp__f82_f162, F82, F162);
 binops!(m32, and__f162_f83, or__f162_f83, xor__f162_f83, add__f162_f83, sub__f162_f83, mul__f162_f83, cmp__f162_f83, F162, F83);
+binops!(m32, and__f83_f81, or__f83_f81, xor__f83_f81, add__f83_f81, sub__f83_f81, mul__f83_f81, cmp__f83_f81, F83, F81);
+binops!(m128, and__f642_f641, or__f642_f641, xor__f642_f641, add__f642_f641, sub__f642_f641, mul__f642_f641, cmp__f642_f641, F642, F641);
 binops!(m128, and__f82_bvd, or__f82_bvd, xor__f82_bvd, add__f82_bvd, sub__f82_bvd, mul__f82_bvd, cmp__f82_bvd, F82, Bvd);
 binops!(m128, and__bvd_bvd, or__bvd_bvd, xor__bvd_bvd, add__bvd_bvd, sub__bvd_bvd, mul__bvd_bvd, cmp__bvd_bvd, Bvd, Bvd);
 binops!(m128, and__bvd_f82, or__bvd_f82, xor__bvd_f82, add__bvd_f82, sub__bvd_f82, mul__bvd_f82, cmp__bvd_f82, Bvd, F82);
@@ -93,6 +95,10 @@ macro_rules! unops { ($mm:ident, $shl:ident, $shr:ident, $shlin:ident, $shrin:id
         let r = a.clone() << k;
         let e = if k >= 128 { 0 } else { $mm::shl(va, k as usize) & $mm::mask(la) };
         assert!(r.wf()); assert!(r.len() == la); assert!($mm::of(r.val()) == e);
+        // the borrowed form has its own body for the dynamic type
+        let rb = &a << k;
+        assert!(rb.wf()); assert!(rb.len() == la); assert!($mm::of(rb.val()) == e);
+        { let mut t = a.clone(); t <<= k; assert!(t.wf() && t.len() == la && $mm::of(t.val()) == e); }
         let k8 = (k & 0xff) as u8;
         let r8 = a.clone() << k8;
         assert!(r8.wf()); assert!($mm::of(r8.val()) == $mm::shl(va, k8 as usize) & $mm::mask(la));
@@ -103,6 +109,9 @@ macro_rules! unops { ($mm:ident, $shl:ident, $shr:ident, $shlin:ident, $shrin:id
         let r = a.clone() >> k;
         let e = if k >= 128 { 0 } else { $mm::shr(va, k as usize) };
         assert!(r.wf()); assert!(r.len() == la); assert!($mm::of(r.val()) == e);
+        let rb = &a >> k;
+        assert!(rb.wf()); assert!(rb.len() == la); assert!($mm::of(rb.val()) == e);
+        { let mut t = a.clone(); t >>= k; assert!(t.wf() && t.len() == la && $mm::of(t.val()) == e); }
         let k64 = (k & 0xff) as u64;
         let r64 = a.clone() >> k64;
         assert!(r64.wf()); assert!($mm::of(r64.val()) == $mm::shr(va, k64 as usize));
